@@ -57,7 +57,9 @@ def gen_diff(rng, which):
                 op['op'] = 'map_list'
                 op.pop('delays', None)
                 op.pop('fail_at', None)
-        prog['T'] = rng.choice([0.125, 0.25, 1.0, 2.0])
+        prog['T'] = rng.choice([0.0, 0.125, 0.25, 1.0, 2.0])       # 0 is a legal, falsy option value
+        prog.pop('runner', None)            # single-threaded only: the schedule must have no choice in it
+        prog['foreign'] = []
         return {'world': 'deco', 'part': 'diff', 'which': 'buffer', 'forms': ['direct', 'deco'], 'base': prog}
     # cache: one loop, a few timed callers
     n = rng.randint(1, 6)
